@@ -228,6 +228,14 @@ func c05Rules(rng *rand.Rand, dir, file string) []c05Rule {
 			return strings.Join(pool[:1+r.Intn(5)], ",")
 		}, ",ab12测,ab12测"},
 		{"json", func(r *rand.Rand) string { return genJSON(r, 0) }, "{}[]\":,\\ tn"},
+		// documents around and beyond 256 bytes (a long value is judged like a short one)
+		{"json|msg", func(r *rand.Rand) string {
+			n := []int{250, 254, 255, 256, 257, 300, 5000}[r.Intn(7)]
+			if r.Intn(2) == 0 {
+				return `{"k":"` + strings.Repeat("x", n-8) + `"}`
+			}
+			return "[" + strings.Repeat("1,", (n-3)/2) + "1]"
+		}, "{}[]\":,x1"},
 		{"prefix=ab", func(r *rand.Rand) string { return "ab" + word(r, r.Intn(4)) }, "ab"},
 		{"prefix=测试|msg", func(r *rand.Rand) string { return "测试" + word(r, r.Intn(4)) }, "测试"},
 		{"suffix=.go", func(r *rand.Rand) string { return word(r, r.Intn(4)) + ".go" }, ".go"},
@@ -498,16 +506,16 @@ func runC05(c *core.Ctx) {
 		var text string
 		switch rng.Intn(9) {
 		case 0:
-			text = pick(rng, "in=(1/2/3/40)", "in=(-1/0/255)", "in=(1.5/2/0.1)|msg")
+			text = pick(rng, "in=(1/2/3/40)", "in=(-1/0/255)", "in=(1.5/2/0.1)|msg", "in=(0.0000005/1000000000000000000000/0.000001/123456789012345680000)")
 			switch rng.Intn(5) {
 			case 0:
 				v = reflect.ValueOf(int32(rng.Intn(6)))
 			case 1:
 				v = reflect.ValueOf(uint8([]int{1, 2, 3, 40, 255, 4}[rng.Intn(6)]))
 			case 2:
-				v = reflect.ValueOf([]float64{1.5, 2, 0.1, 0.25, 3, 1}[rng.Intn(6)])
+				v = reflect.ValueOf([]float64{1.5, 2, 0.1, 0.25, 3, 1, 0.0000005, 1e21, 0.000001, 123456789012345680000}[rng.Intn(10)])
 			case 3:
-				v = reflect.ValueOf([]float32{1.5, 2, 0.1, 0.25, 40}[rng.Intn(5)])
+				v = reflect.ValueOf([]float32{1.5, 2, 0.1, 0.25, 40, 0.000001, 0.0000005}[rng.Intn(7)])
 			default:
 				v = reflect.ValueOf(int64(rng.Intn(5) - 2))
 			}
